@@ -77,4 +77,5 @@ pub const TABLE: &[(&str, fn())] = &[
     ("c10_dec6_c", decoder::c10_dec6_c),
     ("c10_dec6_d", decoder::c10_dec6_d),
     ("c10_ref_is_std_4", decoder::c10_ref_is_std_4),
+    ("c10_probe_1shape", decoder::c10_probe_1shape),
 ];
